@@ -1,7 +1,7 @@
 // BOUNDED contract check of RoutePattern (swimos_utilities/swimos_route/src/route_pattern/mod.rs) -- property C18.
 // parse/apply/unapply/are_ambiguous work on String, HashMap<String,String> and percent_encoding iterators: outside Verus
 // (no str byte reasoning, iterator adaptors) and Kani (HashMap, unbounded strings). Checked natively over ALL patterns of
-// length <= VERIF_BX_DEPTH over the alphabet {a, A, b, /, :, %, 4, 1} and parameter values {"a", "A", "b", "%", "a b", "/"}.
+// length <= VERIF_BX_DEPTH over the alphabet {a, A, b, /, :, %, 4, 1} and parameter values {"a", "A", "b", "%", "a b", "/", "a:b", ":"}.
 // Contract (from the property):
 //   inverse:     unapply(p, apply(p, m)) == m  for every assignment m of non-empty values to p's parameters;
 //   determinism: matching depends on the URI alone; a parameter never binds an empty segment;
@@ -10,7 +10,7 @@ use super::*;
 use std::collections::HashMap;
 
 const ALPHABET: [char; 8] = ['a', 'A', 'b', '/', ':', '%', '4', '1'];
-const VALUES: [&str; 6] = ["a", "A", "b", "%", "a b", "/"];
+const VALUES: [&str; 8] = ["a", "A", "b", "%", "a b", "/", "a:b", ":"];
 
 fn all_patterns(max: usize) -> Vec<RoutePattern> {
     let mut out = vec![];
